@@ -349,6 +349,26 @@ fn main() {
         }
     }
 
+    // a shell that acknowledges notifications: the response is refused (a notification accepts
+    // none), and after that refusal the id can never be resolved again - the bridge must forget it
+    for (api, name) in [(Api::Command, "render-acknowledged(command api)"), (Api::Legacy, "render-acknowledged(capability api)")] {
+        if mine() {
+            bridge_pattern::<AppD>(r, &wd, Pattern { name, known: &[] }, k, false, |b, _| {
+                let reqs = b.send(&Job::Render(api))?;
+                let bridge = b.bincode.as_ref().unwrap();
+                for (h, op) in reqs {
+                    if !matches!(op, Op::Render(_)) {
+                        return Err(format!("unexpected effect {op:?}"));
+                    }
+                    if bridge.handle_response(h as u32, &[]).is_ok() {
+                        return Err("a response to a notification was accepted".into());
+                    }
+                }
+                Ok(())
+            });
+        }
+    }
+
     // ---- typed core (no registry): request objects are dropped by the shell at the end of a cycle ----
     for (api, name) in [
         (Api::Legacy, "timer-set-then-clear-in-one-update(capability api, typed)"),
